@@ -366,3 +366,60 @@ type filterWitness struct {
 func isLoggingIface(m *types.Func) bool {
 	return m.Pkg() != nil && strings.HasSuffix(m.Pkg().Path(), "ship-go/logging")
 }
+
+// sort.Slice(x, less): the slice is permuted in place such that it is sorted w.r.t. less.
+// Assumed (library contract): the result is a permutation of the input and no later element is
+// less than an earlier one.
+func sortSlice(fr *Frame, site ssa.Instruction, fn *ssa.Function, args []*Term, st *State) []*Term {
+	vc := fr.vc
+	c := &site.(*ssa.Call).Call
+	t, s := fr.staticIfaceOperand(c.Args[0])
+	sl, ok := t.Underlying().(*types.Slice)
+	var ci *closureInfo
+	switch f := c.Args[1].(type) {
+	case *ssa.MakeClosure:
+		ci = vc.closures[fr.val(f)]
+	case *ssa.Function:
+		ci = &closureInfo{fn: f}
+	}
+	if !ok || ci == nil {
+		vc.unsupportedf("sort.Slice shape not supported in %s", fr.fn)
+		return nil
+	}
+	vc.assumptions["sort.Slice: in-place permutation, sorted w.r.t. the less function"] = true
+	et := sl.Elem()
+	if _, isStruct := structOf(et); isStruct {
+		vc.unsupportedf("sort.Slice on struct elements in %s", fr.fn)
+		return nil
+	}
+	s = vc.name("sorted", "Slice", s)
+	before := st.clone()
+	key, srt := vc.heapKey(et)
+	h0 := vc.comp(st, key, srt)
+	vc.havocKey(st, key, srt)
+	h1 := vc.comp(st, key, srt)
+	vc.instN++
+	pf, pb := quoteSym(fmt.Sprintf("sortpf!%d", vc.instN)), quoteSym(fmt.Sprintf("sortpb!%d", vc.instN))
+	vc.decl(fmt.Sprintf("(declare-fun %s (Int) Int)", pf))
+	vc.decl(fmt.Sprintf("(declare-fun %s (Int) Int)", pb))
+	n := app("s.len", s)
+	vc.assume(st.guard, leaf(fmt.Sprintf("(forall ((fa Int)) (! (=> (not (= (base fa) (base (s.arr %s)))) (= (select %s fa) (select %s fa))) :pattern ((select %s fa))))", s, h1, h0, h1)))
+	vc.assume(st.guard, leaf(fmt.Sprintf("(forall ((i Int)) (! (=> (and (<= 0 i) (< i %s)) (and (<= 0 (%s i)) (< (%s i) %s) (= (select %s (selem %s i)) (select %s (selem %s (%s i)))))) :pattern ((select %s (selem %s i)))))", n, pf, pf, n, h1, s, h0, s, pf, h1, s)))
+	vc.assume(st.guard, leaf(fmt.Sprintf("(forall ((j Int)) (! (=> (and (<= 0 j) (< j %s)) (and (<= 0 (%s j)) (< (%s j) %s) (= (select %s (selem %s j)) (select %s (selem %s (%s j)))))) :pattern ((select %s (selem %s j)))))", n, pb, pb, n, h0, s, h1, s, pb, h0, s)))
+	less := fr.pureCall(ci, []*Term{leaf("sj"), leaf("si")}, st)
+	vc.assume(st.guard, leaf(fmt.Sprintf("(forall ((si Int) (sj Int)) (! (=> (and (<= 0 si) (< si sj) (< sj %s)) (not %s)) :pattern ((selem %s si) (selem %s sj))))", n, less, s, s)))
+	_ = before
+	return nil
+}
+
+func init() {
+	specials["sort.Slice"] = sortSlice
+	specialMods["sort.Slice"] = func(fr *Frame, c *ssa.CallCommon, set map[string]bool) {
+		if mi, ok := c.Args[0].(*ssa.MakeInterface); ok {
+			if sl, ok := mi.X.Type().Underlying().(*types.Slice); ok {
+				fr.typeCells(sl.Elem(), set)
+			}
+		}
+		set["wm"] = true
+	}
+}
